@@ -130,16 +130,35 @@ func (a *A) ruleFreshNew(T *types.Named, ctor *ssa.Function, accFields map[*type
 				problems = append(problems, fmt.Sprintf("returns %s, which is not a new allocation", TermOf(v, nil)))
 				continue
 			}
+			// fields of the new object that are given a value of their own (not the receiver's)
+			own := map[*types.Var]bool{}
+			for _, r := range *al.Referrers() {
+				if fa, ok := r.(*ssa.FieldAddr); ok {
+					for _, rr := range *fa.Referrers() {
+						if st, ok := rr.(*ssa.Store); ok && st.Addr == ssa.Value(fa) {
+							fromRecv := false
+							if ld, ok := st.Val.(*ssa.UnOp); ok {
+								if rfa, ok := ld.X.(*ssa.FieldAddr); ok && rfa.X == ssa.Value(recv) {
+									fromRecv = true
+								}
+							}
+							if !fromRecv {
+								own[fieldVarOf(fa)] = true
+							}
+						}
+					}
+				}
+			}
 			// stores into the new object
 			for _, r := range *al.Referrers() {
 				switch u := r.(type) {
 				case *ssa.Store:
 					if u.Addr == ssa.Value(al) {
-						// whole-struct copy *new = *recv
+						// whole-struct copy *new = *recv: fine for fields that are re-initialised afterwards
 						if ld, ok := u.Val.(*ssa.UnOp); ok && ld.X == ssa.Value(recv) {
 							for f := range accFields {
-								if isRefType(f.Type()) {
-									problems = append(problems, fmt.Sprintf("copies the whole receiver, sharing the reference-typed accumulator field %s", f.Name()))
+								if isRefType(f.Type()) && !own[f] {
+									problems = append(problems, fmt.Sprintf("copies the whole receiver and does not re-initialise the reference-typed accumulator field %s, which stays shared with the prototype", f.Name()))
 								}
 							}
 						}
